@@ -35,17 +35,20 @@ pub fn draw_pending16() -> u32 {
     simkit::with(|s| *s.tape.pick(&[0u32, 0, 0, 2, 8]))
 }
 
-fn frag_len(frag: Frag, avail: usize, room: usize) -> usize {
+/// `total`: length of the whole object; tiny fragments are for small objects (at most ~2000
+/// reads per object, or the step budget is spent on the harness's own fragmentation)
+fn frag_len(frag: Frag, avail: usize, room: usize, total: usize) -> usize {
     let max = avail.min(room);
     if max == 0 {
         return 0;
     }
+    let floor = total / 2000;
     match frag {
         Frag::Whole => max,
-        Frag::Fixed(k) => max.min(k.max(1)),
+        Frag::Fixed(k) => max.min(k.max(1).max(floor)),
         Frag::Random(k) => {
             let k = k.max(1).min(max);
-            1 + simkit::draw(k as u32) as usize
+            (floor + 1 + simkit::draw(k as u32) as usize).min(max)
         }
     }
 }
@@ -91,7 +94,7 @@ impl AsyncRead for SimSource {
                 return Poll::Ready(Err(kind.into()));
             }
         }
-        let mut n = frag_len(self.frag, avail, buf.remaining());
+        let mut n = frag_len(self.frag, avail, buf.remaining(), self.data.len());
         if let Some((at, _)) = self.fail_at {
             n = n.min(at - self.pos).max(if at > self.pos { 1 } else { 0 });
         }
@@ -208,7 +211,7 @@ impl AsyncRead for SimFile {
         let len = g.eof_at.map(|e| (e as usize).min(g.data.len())).unwrap_or(g.data.len());
         let pos = g.pos as usize;
         let avail = len.saturating_sub(pos);
-        let n = frag_len(g.read_frag, avail, buf.remaining());
+        let n = frag_len(g.read_frag, avail, buf.remaining(), g.data.len());
         if n > 0 {
             buf.put_slice(&g.data[pos..pos + n]);
         }
@@ -264,7 +267,7 @@ impl AsyncWrite for SimFile {
         }
         let call = g.write_calls;
         g.write_calls += 1;
-        let mut n = frag_len(g.write_frag, src.len(), usize::MAX);
+        let mut n = frag_len(g.write_frag, src.len(), usize::MAX, src.len());
         let mut crash = false;
         if let Some((k, fault)) = g.write_fault.clone() {
             if k == call {
